@@ -24,6 +24,8 @@ func init() {
 		{Name: "qos-order-changed", Rule: "R16.3", Where: "QoS", Edits: []Edit{{"publish.go", "\tcase p.fixed.Has(QoS3):\n\t\treturn 3 // malformed\n\tcase p.fixed.Has(QoS1):\n\t\treturn 1", "\tcase p.fixed.Has(QoS1):\n\t\treturn 1\n\tcase p.fixed.Has(QoS3):\n\t\treturn 3 // malformed"}}},
 		{Name: "undefined-drops-data", Rule: "R16.4", Where: "Undefined", Edits: []Edit{{"undefined.go", "\tp.data = make([]byte, len(data))\n\tcopy(p.data, data)\n", "\tp.data = make([]byte, len(data))\n"}}},
 		{Name: "fill-emits-flags-first", Rule: "R16.1", Where: "0x20", Edits: []Edit{{"connack.go", "\ti += p.fixed.fill(b, i)                          // firstByte header", "\ti += p.flags.fill(b, i)                          // firstByte header"}}},
+		{Name: "decoder-resets-packet-to-constructor-defaults", Rule: "R16.6", Where: "(*Subscribe).UnmarshalBinary#keeps-first-byte", Edits: []Edit{{"subscribe.go", "func (p *Subscribe) UnmarshalBinary(data []byte) error {\n", "func (p *Subscribe) UnmarshalBinary(data []byte) error {\n\t*p = *NewSubscribe()\n"}}},
+		{Name: "decoder-normalises-reserved-bits", Rule: "R16.6", Where: "(*PubRel).UnmarshalBinary#keeps-first-byte", Edits: []Edit{{"pubrel.go", "func (p *PubRel) UnmarshalBinary(data []byte) error {\n", "func (p *PubRel) UnmarshalBinary(data []byte) error {\n\tp.fixed |= 2\n"}}},
 		{Name: "writeto-emits-constant-frame", Rule: "R16.5", Where: "(*PingResp).WriteTo", Edits: []Edit{{"pingresp.go", "\tb := make([]byte, p.width())\n\tp.fill(b, 0)\n\tn, err := w.Write(b)", "\tn, err := w.Write([]byte{PINGRESP, 0})"}}},
 		{Name: "switch-as-if-chain", Silent: true, Edits: []Edit{{"packet.go", "\tcase PINGREQ:\n\t\tp = &PingReq{fixed: f.fixed}\n\n\tcase PINGRESP:\n\t\tp = &PingResp{fixed: f.fixed}\n", "\tcase PINGRESP:\n\t\tp = &PingResp{fixed: f.fixed}\n\n\tcase PINGREQ:\n\t\tp = &PingReq{fixed: f.fixed}\n"}}},
 	}})
@@ -69,6 +71,7 @@ func checkC16(p *Prog, c *Check) {
 	c.Rule("R16.1", "the dispatch compares (first byte & 0xF0) with exactly the 15 MQTT type codes; each arm allocates the Go type the specification assigns to that code and stores the unmasked first byte into the field that type's encoder emits first; everything else yields Undefined")
 	c.Rule("R16.2", "each constructor stores its type's code in the upper nibble of that field, with the reserved bits of the specification in the lower nibble")
 	c.Rule("R16.3", "Publish.Duplicate, QoS and Retain, as functions of that byte, are bit 3, bits 2–1 and bit 0 — on all 256 values")
+	c.Rule("R16.6", "the body decoder (UnmarshalBinary) of every dispatched type never writes the field holding the first byte, nor the packet as a whole: what the dispatch stored is what the packet carries")
 	c.Rule("R16.5", "each type's WriteTo goes through that encoder (shape rule of C10 R10.1), so the first byte written is the first byte carried")
 	c.Rule("R16.4", "Undefined.UnmarshalBinary puts a copy of its argument where Data() reads")
 	c.Explanation = "The dispatch is a finite structure: the comparison chain is extracted from the SSA form with its constants, arms and stored values and compared with the type table of MQTT v5.0 §2.1.2 carried by the checker (keyed by exported type names). The flag accessors are decision functions of one byte and are evaluated on all 256 values."
@@ -277,6 +280,46 @@ func checkC16(p *Prog, c *Check) {
 			c.Bad("R16.5", cons, p.Pos(wt.Pos()), "WriteTo does not use the type's encoder")
 		} else {
 			c.OK("R16.5", cons, p.Pos(wt.Pos()), "one Write of the buffer filled by "+qname(fill))
+		}
+	}
+
+	// ---- R16.6: nothing on the decode path writes the carried first byte again
+	for _, k := range codes {
+		tn := specPacketTypes[k]
+		dec := p.Method(tn, "UnmarshalBinary")
+		hf, _, okH := p.headerField(tn)
+		cons := "(*" + tn + ").UnmarshalBinary#keeps-first-byte"
+		obj := p.Pkg.Scope().Lookup(tn)
+		if dec == nil || !okH || obj == nil {
+			c.Unk("R16.6", cons, "-", "decoder or header field not found")
+			continue
+		}
+		T := obj.Type()
+		bad := ""
+		nfn := 0
+		for _, fn := range sortedFuncs(p.Reach([]*ssa.Function{dec})) {
+			nfn++
+			for _, b := range fn.Blocks {
+				for _, ins := range b.Instrs {
+					st, ok := ins.(*ssa.Store)
+					if !ok {
+						continue
+					}
+					if fa, ok := st.Addr.(*ssa.FieldAddr); ok && fa.Field == hf {
+						if pt, ok := fa.X.Type().Underlying().(*types.Pointer); ok && types.Identical(pt.Elem(), T) {
+							bad = fmt.Sprintf("%s stores to the field holding the first byte at %s: the flags the dispatch stored are lost", qname(fn), posOf(p, ins))
+						}
+					}
+					if types.Identical(st.Val.Type(), T) {
+						bad = fmt.Sprintf("%s overwrites a whole %s at %s: the first byte the dispatch stored is lost", qname(fn), tn, posOf(p, ins))
+					}
+				}
+			}
+		}
+		if bad != "" {
+			c.Bad("R16.6", cons, p.Pos(dec.Pos()), bad)
+		} else {
+			c.OK("R16.6", cons, p.Pos(dec.Pos()), fmt.Sprintf("no store to the header field or to a whole %s in the %d functions reachable from the decoder", tn, nfn))
 		}
 	}
 
